@@ -15,7 +15,7 @@ from __future__ import annotations
 from opsim import seams
 from opsim.core import CLOCK, derive, HarnessError
 from opsim.sched import Sched, SeqTracer, SimLock
-from opsim.util import call, weighted
+from opsim.util import call, weighted, quiet
 
 from operon_ai.organelles.lysosome import Lysosome, Waste, WasteType
 from operon_ai.healing.autophagy_daemon import AutophagyDaemon
@@ -127,9 +127,9 @@ class World:
                             retention_hours=cfg["ret_h"], digesters=digesters, on_toxic=self._on_toxic,
                             silent=cfg.get("silent", True))
         self.builtin = {}
-        self.daemon = AutophagyDaemon(histone_store=HistoneStore(silent=True) if _histone_silent() else HistoneStore(),
+        self.daemon = AutophagyDaemon(histone_store=HistoneStore(silent=quiet()) if _histone_silent() else HistoneStore(),
                                       lysosome=self.lys, summarizer=self._summarise, min_tokens_for_pruning=1,
-                                      silent=True)
+                                      silent=quiet())
         self.summary_bad = False
 
     def _task(self):
